@@ -164,7 +164,50 @@ def run_verus(rs_path, rlimit=20, threads=8, extra=()):
     return dict(cmd=' '.join(cmd), rc=p.returncode, json=js, stderr=p.stderr, stdout=p.stdout if js is None else '', wall=wall)
 
 
-def results(run, crate):
+VERIFICATION_ERRORS = re.compile(
+    r'postcondition not satisfied|precondition not satisfied|assertion failed|invariant not satisfied'
+    r'|bitvector assertion not satisfied|possible arithmetic (?:underflow/overflow|overflow|underflow)'
+    r'|possible division by zero|decreases not satisfied|nonlinear_arith|assertion not satisfied'
+    r'|possible bit shift underflow/overflow|index out of bounds|failed to prove|not satisfied|possible .* overflow')
+
+
+def error_blocks(stderr):
+    """[(message, file_line or None, block_text)] for every `error...` diagnostic"""
+    res = []
+    for b in re.split(r'\n(?=error)', '\n' + stderr):
+        b = b.strip()
+        if not b.startswith('error') or 'aborting due to' in b:
+            continue
+        first = b.split('\n', 1)[0]
+        m = re.search(r'-->\s*([^\s:]+):(\d+):(\d+)', b)
+        res.append((first, int(m.group(2)) if m else None, b))
+    return res
+
+
+def enclosing_fn(text_lines, line_no):
+    """name of the fn whose text contains line_no (1-based) in the assembled file: the closest
+    preceding `fn name` at lower or equal indentation"""
+    impl = ''
+    name = None
+    for k in range(min(line_no, len(text_lines)) - 1, -1, -1):
+        m = re.match(r'\s*(?:pub(?:\([^)]*\))?\s+)?(?:open\s+|closed\s+|uninterp\s+)?(?:proof\s+|spec\s+|exec\s+)?fn\s+(\w+)', text_lines[k])
+        if m and name is None:
+            name = m.group(1)
+            continue
+        if name is not None:
+            mi = re.match(r'impl(?:<[^>]*>)?\s+([\w:]+)', text_lines[k])
+            if mi:
+                impl = mi.group(1)
+                # only counts if the fn is inside this impl (impl closed before fn?) - approximate by indentation
+                break
+            if re.match(r'\}', text_lines[k]):
+                break
+    if name is None:
+        return None
+    return (impl + '::' if impl and text_lines and True else '') + name
+
+
+def results(run, crate, text=''):
     """-> (status, obligations[], errors_text)
     status: 'ok' | 'failed' | 'undecided' (compile error, rlimit, crash)"""
     js = run['json']
@@ -184,16 +227,32 @@ def results(run, crate):
             obs.append(dict(name=name[len(crate) + 2:], mode=f.get('mode:', f.get('mode', '')),
                             success=bool(f['success']), time_us=f.get('time-micros', 0), rlimit=f.get('rlimit', 0)))
     err = run['stderr']
-    if vr.get('encountered-vir-error') or (vr.get('encountered-error') and not obs):
-        return 'undecided', obs, err[-6000:]
-    if re.search(r'[Rr]esource limit|rlimit.*exceeded|could not finish', err):
-        # a time-out is never a violation
-        return 'undecided', obs, err[-6000:]
-    if (not vr.get('success')) and all(o['success'] for o in obs) and obs:
-        # rustc-level error after verification (lifetime/erasure) -> tool problem, not a violation
+    blocks = error_blocks(err)
+    tlines = text.split('\n')
+    other = []
+    for (msg, line, blk) in blocks:
+        if re.search(r'[Rr]esource limit|rlimit', blk.split('\n')[0]):
+            other.append(msg)
+            continue
+        if VERIFICATION_ERRORS.search(msg) and not re.match(r'error\[E\d+\]', msg):
+            fn = enclosing_fn(tlines, line) if line else None
+            hit = False
+            for o in obs:
+                if fn and (o['name'] == fn or o['name'].endswith('::' + fn.split('::')[-1]) and fn.split('::')[0] in o['name']):
+                    o['success'] = False
+                    o.setdefault('errors', []).append(msg)
+                    hit = True
+            if not hit:
+                obs.append(dict(name=fn or ('line %s' % line), mode='query', success=False, time_us=0, rlimit=0, errors=[msg]))
+        else:
+            other.append(msg)
+    if vr.get('encountered-vir-error') or other or (vr.get('encountered-error') and not obs):
+        # compile errors, unsupported constructs, time-outs: never a violation
         return 'undecided', obs, err[-6000:]
     if any(not o['success'] for o in obs):
         return 'failed', obs, err[-12000:]
+    if not vr.get('success'):
+        return 'undecided', obs, err[-6000:]
     return 'ok', obs, err[-2000:]
 
 
@@ -211,7 +270,7 @@ def check_unit(unit, tpl_path, build_dir, repo=REPO, rlimit=20, extra=()):
     with open(rs, 'w') as f:
         f.write(text)
     run = run_verus(rs, rlimit=rlimit, extra=extra)
-    status, obs, err = results(run, crate)
+    status, obs, err = results(run, crate, text)
     smt_ms = 0
     try:
         smt_ms = run['json']['times-ms']['smt']['smt-run']
